@@ -207,6 +207,105 @@ struct Spec {
 
 const KEY_NAMES: [&str; 4] = ["lat", "io", "q", "late"];
 const PREFILL_VALUE: f64 = 0.5;
+/// yield point of the harness itself, right after a scheduled `render()` has returned
+const RENDER_DONE: &str = "h.render.done";
+/// block size of the bucket (Generated.bucket_block_size, C05.src_bucket_shape)
+const BLOCK: usize = 64;
+/// a scheduled run that makes no progress for this long is given up (ordinary runs take milliseconds)
+const RUN_DEADLINE_S: u64 = 10;
+/// after this many runs that did not complete the concurrent stream stops (see `run_concurrent`)
+const MAX_INCOMPLETE: usize = 3;
+
+fn is_bucket_point(id: &str) -> bool {
+    id == "start" || id.starts_with("bkt.") || id.starts_with("blk.") || id.starts_with("spin:bkt.")
+}
+
+/// the scene is ONE histogram key touched only by recorder and drainer threads: the run is replayed on the Lean model
+/// `Model/PromConc.lean` (theorems `Props/C07Conc.lean`)
+fn tied(spec: &Spec) -> bool {
+    spec.nkeys == 1 && spec.roles.iter().all(|r| matches!(r, Role::Recorder { key: 0, .. } | Role::Drainer { .. }))
+}
+
+/// Model tie for single-key scenes: `promconc run …` replays the executed grants on the bucket step machine and answers
+/// the labels of the steps, the EXACT number of K1 steps (Lean `k1Step`), what every scheduled `render()` showed
+/// (`_count:_sum` in units of 0.5) and what the render after the run shows. Returns the exact K1 count of the trace.
+fn model_tie(out: &mut Out, spec: &Spec, sh: &Shared, run: &crate::sched::RunResult, fin: &[(u64, f64)]) -> Option<u64> {
+    if !tied(spec) {
+        return None;
+    }
+    let units = |v: f64| (v * 2.0) as u64;
+    let recs: Vec<String> = spec
+        .roles
+        .iter()
+        .filter_map(|r| match r {
+            Role::Recorder { calls, .. } => {
+                let vs: Vec<String> = calls.iter().flat_map(|(v, c)| std::iter::repeat(units(*v).to_string()).take(*c)).collect();
+                Some(if vs.is_empty() { "-".to_string() } else { vs.join("+") })
+            }
+            _ => None,
+        })
+        .collect();
+    let drains: Vec<String> = spec
+        .roles
+        .iter()
+        .filter_map(|r| match r {
+            Role::Drainer { calls } => Some(calls.len().to_string()),
+            _ => None,
+        })
+        .collect();
+    let toks: Vec<String> = run
+        .trace
+        .iter()
+        .map(|(t, id)| {
+            if *id == RENDER_DONE {
+                format!("{}m", t)
+            } else if is_bucket_point(id) {
+                format!("{}", t)
+            } else {
+                format!("{}n", t)
+            }
+        })
+        .collect();
+    let labels: Vec<&str> = run.trace.iter().filter(|(_, id)| is_bucket_point(id)).map(|x| x.1).collect();
+    let bucket_trace: Vec<(usize, &'static str)> = run.trace.iter().filter(|(_, id)| is_bucket_point(id)).cloned().collect();
+    let k1 = crate::c05::signatures_of_trace(&bucket_trace).k1_exact as u64;
+    // what the scheduled renders showed, in the order of their marker grants
+    let all = sh.renders.lock().unwrap().clone();
+    let mut per_thread: Vec<std::collections::VecDeque<String>> = vec![Default::default(); spec.roles.len()];
+    for (t, _, _, text, _, _) in &all {
+        let c = counts_of(text).map(|c| format!("{}:{}", c[0].0, units(c[0].1))).unwrap_or_else(|e| format!("unparseable({})", e.len()));
+        per_thread[*t].push_back(c);
+    }
+    let mut shown = vec![];
+    for (t, id) in &run.trace {
+        if *id == RENDER_DONE {
+            shown.push(per_thread[*t].pop_front().unwrap_or_else(|| "missing".into()));
+        }
+    }
+    out.op(
+        &format!(
+            "promconc run {} {} {} {} {}",
+            BLOCK,
+            spec.prefill[0],
+            if recs.is_empty() { ".".to_string() } else { recs.join(",") },
+            if drains.is_empty() { ".".to_string() } else { drains.join(",") },
+            if toks.is_empty() { "-".to_string() } else { toks.join(".") }
+        ),
+        &format!(
+            "{} | k1={} | renders={} | final={}:{}",
+            labels.join("."),
+            k1,
+            if shown.is_empty() { ".".to_string() } else { shown.join(",") },
+            fin[0].0,
+            units(fin[0].1)
+        ),
+    );
+    out.count("concurrent.replayed-on-the-Lean-model");
+    if k1 > 0 {
+        out.count("concurrent.runs-with-a-K1-step(Lean k1Step)");
+    }
+    Some(k1)
+}
 
 struct Shared {
     handle: metrics_exporter_prometheus::PrometheusHandle,
@@ -277,6 +376,8 @@ fn build_scene(spec: &Spec) -> (Vec<Box<dyn FnOnce() + Send + 'static>>, Arc<Sha
                             let s0 = sh.seq.fetch_add(1, Ordering::SeqCst);
                             let lo: Vec<u64> = sh.done.iter().map(|a| a.load(Ordering::SeqCst)).collect();
                             let text = sh.handle.render();
+                            // marker grant: the render read the distributions in this thread's PREVIOUS grant (model tie)
+                            metrics::verif::point(RENDER_DONE);
                             let hi: Vec<u64> = sh.started.iter().map(|a| a.load(Ordering::SeqCst)).collect();
                             let s1 = sh.seq.fetch_add(1, Ordering::SeqCst);
                             sh.renders.lock().unwrap().push((t, s0, lo, text, hi, s1));
@@ -332,15 +433,40 @@ fn k1_stragglers(tr: &[(usize, &'static str)]) -> u64 {
     n
 }
 
-fn judge(out: &mut Out, spec: &Spec, sh: &Shared, run: &crate::sched::RunResult) {
+/// returns false when the scheduled run did not complete (a thread blocked outside a yield point)
+fn judge(out: &mut Out, spec: &Spec, sh: &Shared, run: &crate::sched::RunResult) -> bool {
+    if run.timed_out && !run.deadlock && run.panicked.is_empty() {
+        // Not a verdict about the property: the scheduler could not drive this run (some thread blocked where there is no
+        // yield point, e.g. on a lock that a parked thread holds). Reported by `run_concurrent` as a broken correspondence.
+        out.count("concurrent.run-did-not-complete");
+        return false;
+    }
     if run.deadlock || run.timed_out || !run.panicked.is_empty() {
         out.oracle_fail(
             "record racing render/upkeep: deadlock, timeout or panic",
             &format!("deadlock={} timeout={} panicked={:?} spec {:?} trace {:?}", run.deadlock, run.timed_out, run.panicked, spec, run.trace),
         );
-        return;
+        return true;
     }
-    let allowance = k1_stragglers(&run.trace);
+    judge_completed(out, spec, sh, run);
+    true
+}
+
+fn judge_completed(out: &mut Out, spec: &Spec, sh: &Shared, run: &crate::sched::RunResult) {
+    // ---- the render after everything finished (taken first: the model tie needs it, and it is the same whenever taken)
+    let text = sh.handle.render();
+    let fin = match counts_of(&text) {
+        Ok(c) => c,
+        Err(e) => {
+            out.oracle_fail("render(): not well-formed exposition text", &format!("{} :: {:?}", e, text));
+            return;
+        }
+    };
+    // single-key scenes: exact K1 count (compared with the Lean model's); otherwise the coarse trace signature
+    let allowance = match model_tie(out, spec, sh, run, &fin) {
+        Some(k1) => k1,
+        None => k1_stragglers(&run.trace),
+    };
     let nk = KEY_NAMES.len();
     // what was recorded, per key
     let mut total = vec![0u64; nk];
@@ -427,14 +553,6 @@ fn judge(out: &mut Out, spec: &Spec, sh: &Shared, run: &crate::sched::RunResult)
         }
     }
     // ---- after everything finished
-    let text = sh.handle.render();
-    let fin = match counts_of(&text) {
-        Ok(c) => c,
-        Err(e) => {
-            out.oracle_fail("render(): not well-formed exposition text", &format!("{} :: {:?}", e, text));
-            return;
-        }
-    };
     let mut lost_all = 0u64;
     for k in 0..nk {
         if fin[k].0 > total[k] {
@@ -468,7 +586,8 @@ fn judge(out: &mut Out, spec: &Spec, sh: &Shared, run: &crate::sched::RunResult)
 }
 
 fn random_spec(r: &mut Rng) -> Spec {
-    let nkeys = r.range(1, 3);
+    // half of the scenes have ONE key (those are replayed on the Lean model, see `tied`)
+    let nkeys = if r.chance(1, 2) { 1 } else { r.range(2, 3) };
     let prefill: Vec<usize> = (0..nkeys).map(|_| *r.pick(&[0usize, 0, 1, 62, 63, 64, 65])).collect();
     let mut roles = vec![];
     for t in 0..r.range(1, 3) {
@@ -477,7 +596,7 @@ fn random_spec(r: &mut Rng) -> Spec {
         let calls: Vec<(f64, usize)> = (0..r.range(1, 2)).map(|_| (v, if r.chance(1, 5) { 2 } else { 1 })).collect();
         roles.push(Role::Recorder { key, calls });
     }
-    if r.chance(1, 3) {
+    if r.chance(1, if nkeys == 1 { 5 } else { 3 }) {
         roles.push(Role::Registrar { key: nkeys, value: 8.0 });
     }
     for _ in 0..r.range(1, 2) {
@@ -497,22 +616,79 @@ fn random_spec(r: &mut Rng) -> Spec {
 pub fn run_concurrent(cfg: &Cfg, out: &mut Out) {
     let root = Rng::new(cfg.seed ^ 0xC07C);
     let n = if cfg.thorough { 1500 } else { 300 };
+    // Scheduled runs that do not complete (a thread blocked outside a yield point: the scheduler waits for it to park
+    // until the run's deadline) say nothing about the property, and every one of them costs the deadline. After
+    // MAX_INCOMPLETE of them the stream stops and says so in its last op (`promconc stream complete`), which the model
+    // answers with `complete`: the check then reports a broken correspondence, not an oracle failure.
+    // Before it stops it degrades once: after the first MAX_INCOMPLETE such runs only scenes with ONE draining thread are
+    // generated (two drain passes are the only calls of the scenes that can contend on an exporter-side lock; recording is
+    // lock-free) and the deadline shrinks, so that a change which makes concurrent drains unschedulable still gets its
+    // record-vs-drain interleavings examined for a failing input.
+    let mut incomplete: Vec<String> = vec![];
     for i in 0..n {
+        if incomplete.len() >= 2 * MAX_INCOMPLETE {
+            break;
+        }
+        let degraded = incomplete.len() >= MAX_INCOMPLETE;
         let mut r = root.fork(i as u64);
         out.case(&format!("concurrent seed={} i={}", cfg.seed, i));
         // the first cases are the targeted shape: the recorders' claims fill the block exactly, the first recorder is
         // held between its slot claim and its publish while the others finish and the drain runs
         let targeted = i < 6;
-        let spec = if targeted {
+        // second targeted shape (cases 6..17): record() calls that run ENTIRELY inside a drain pass's walk over the chain it
+        // has just detached (between the detach and the end of `clear_with`), with nothing recorded afterwards: the samples
+        // land in a fresh block and must be shown by the next render — whatever the drain pass remembers about the key
+        let inside = (6..18).contains(&i);
+        let mut spec = if targeted {
             let nrec = 1 + i % 3;
             let mut roles: Vec<Role> = (0..nrec).map(|t| Role::Recorder { key: 0, calls: vec![([1.0, 2.0, 4.0][t], 1)] }).collect();
             roles.push(Role::Drainer { calls: (0..r.range(1, 2)).map(|_| r.chance(1, 2)).collect() });
             Spec { buckets: false, nkeys: 1, prefill: vec![64 - nrec], roles }
+        } else if inside {
+            let nrec = 1 + i % 2;
+            let mut roles: Vec<Role> =
+                (0..nrec).map(|t| Role::Recorder { key: 0, calls: vec![([1.0, 2.0][t], if i % 5 == 0 { 2 } else { 1 })] }).collect();
+            roles.push(Role::Drainer { calls: if i % 3 == 0 { vec![i % 4 == 0, true] } else { vec![i % 4 == 0] } });
+            Spec { buckets: i % 2 == 1, nkeys: 1, prefill: vec![[1usize, 2, 63, 64, 65, 1][(i - 6) % 6]], roles }
+        } else if i == 18 {
+            // corpus: the witness of `C07.conc_hist_exact_fails` (K-C07-K1) replayed on the real exporter, block size 64
+            Spec {
+                buckets: false,
+                nkeys: 1,
+                prefill: vec![0],
+                roles: vec![
+                    Role::Recorder { key: 0, calls: vec![(0.5, 1)] },
+                    Role::Recorder { key: 0, calls: vec![(1.0, 1)] },
+                    Role::Drainer { calls: vec![false] },
+                ],
+            }
         } else {
             random_spec(&mut r)
         };
+        if degraded {
+            // keep the first draining thread only
+            let mut seen = false;
+            spec.roles.retain(|x| match x {
+                Role::Drainer { .. } => !std::mem::replace(&mut seen, true),
+                _ => true,
+            });
+        }
         let nt = spec.roles.len();
         let mut sch = vec![];
+        if inside {
+            let nrec = nt - 1;
+            sch.extend(vec![nt - 1; 2 + (i % 3)]); // the drainer: start, tail load + detach CAS, (quiesced check, read)
+            for t in 0..nrec {
+                sch.extend(vec![t; 12]); // the recorders run to completion inside the drain pass
+            }
+            sch.extend(vec![nt - 1; 60]); // the drain pass (and the drainer's later passes) finish
+        }
+        if i == 18 && !degraded {
+            // starts; recorder 0 completes (tail load, first-block CAS, claim, publish, generation bump); recorder 1 loads
+            // the tail; the drain pass detaches, checks, reads, ends; recorder 1 claims and publishes in the detached block
+            sch.extend([0, 1, 2, 0, 0, 0, 0, 0, 1, 2, 2, 2, 2, 1, 1, 1]);
+            out.count("concurrent.corpus:K-C07-K1-witness");
+        }
         if targeted {
             let nrec = nt - 1;
             sch.extend(vec![0; 3]); // recorder 0: start, load tail, claim → parked before publish
@@ -530,7 +706,13 @@ pub fn run_concurrent(cfg: &Cfg, out: &mut Out) {
             sch.push(cur);
         }
         let (bodies, sh) = build_scene(&spec);
-        let run = crate::sched::run(bodies, &sch);
+        let run = crate::sched::run_deadline(bodies, &sch, if degraded { 3 } else { RUN_DEADLINE_S });
+        if inside {
+            out.count("concurrent.targeted:records-entirely-inside-a-drain-pass");
+        }
+        if degraded {
+            out.count("concurrent.degraded:one-draining-thread-only");
+        }
         out.count(&format!(
             "concurrent.keys={} recorders={} drainers={} registrar={} buckets={}",
             spec.nkeys,
@@ -539,9 +721,11 @@ pub fn run_concurrent(cfg: &Cfg, out: &mut Out) {
             spec.roles.iter().any(|x| matches!(x, Role::Registrar { .. })),
             spec.buckets
         ));
-        judge(out, &spec, &sh, &run);
+        if !judge(out, &spec, &sh, &run) {
+            incomplete.push(format!("i={} spec {:?} granted so far {:?}", i, spec, run.trace));
+        }
     }
-    if cfg.thorough {
+    if cfg.thorough && incomplete.is_empty() {
         // exhaustive schedules of small scenes (every interleaving at yield-point granularity, up to a cap)
         let scenes = vec![
             Spec { buckets: false, nkeys: 1, prefill: vec![0], roles: vec![Role::Recorder { key: 0, calls: vec![(1.0, 1)] }, Role::Drainer { calls: vec![true] }] },
@@ -570,8 +754,27 @@ pub fn run_concurrent(cfg: &Cfg, out: &mut Out) {
             );
             out.count_n(&format!("concurrent.exhaustive.scene{}.exhausted={}", si, exhausted), runs as u64);
             for (sh, run) in results.borrow().iter() {
-                judge(out, spec, sh, run);
+                if !judge(out, spec, sh, run) {
+                    incomplete.push(format!("exhaustive scene {} granted so far {:?}", si, run.trace));
+                }
             }
         }
+    }
+    out.case("concurrent stream end");
+    if incomplete.is_empty() {
+        out.op("promconc stream complete", "complete");
+    } else {
+        let mut d = incomplete[0].clone();
+        d.truncate(1500);
+        out.op(
+            "promconc stream complete",
+            &format!(
+                "incomplete: {} scheduled run(s) did not complete: a thread blocked outside a yield point (one draining thread only after {}, stream stopped after {}); first: {}",
+                incomplete.len(),
+                MAX_INCOMPLETE,
+                2 * MAX_INCOMPLETE,
+                d.replace('\n', " ")
+            ),
+        );
     }
 }
